@@ -83,6 +83,7 @@ def run_check(prop, tier, seed, replay=None, jobs=None, only_unit=None, scale=1.
         dirs = {"py": pydir, "so": sodir}
         tasks = []
         tid = 0
+        planned = 0
         if replay:
             u = [x for x in mod.plan(replay.get("tier", tier)) if x["unit"] == replay["unit"]]
             params = replay.get("params") or (u[0].get("params") if u else {})
@@ -92,6 +93,7 @@ def run_check(prop, tier, seed, replay=None, jobs=None, only_unit=None, scale=1.
             for u in units:
                 n = max(1, int(round(u["n"] * scale))) if not u.get("fixed_n") else u["n"]
                 only_b = os.environ.get("VERIF_BUILDS")
+                planned += n * len(u.get("builds", ["py"])) if not only_unit else 0
                 for b in u.get("builds", ["py"]):
                     if dirs.get(b) is None or (only_b and b not in only_b.split(",")):
                         continue
@@ -121,14 +123,18 @@ def run_check(prop, tier, seed, replay=None, jobs=None, only_unit=None, scale=1.
                 recs.extend(r)
                 if st != "ok":
                     statuses.append(st)
-        return finish(mod, prop, tier, seed, recs, statuses, notes, t_start, replay, quiet)
+        ran = sum(len(t["indices"]) for t in tasks)
+        share = (ran / planned) if planned else 1.0
+        if share < 0.999 and not replay:
+            notes.append("only %.0f%% of the planned (unit x build) cases were run (VERIF_BUILDS / missing compiled build / --unit): coverage floors scaled accordingly" % (100 * share))
+        return finish(mod, prop, tier, seed, recs, statuses, notes, t_start, replay, quiet, share)
     finally:
         shutil.rmtree(tmpdir, ignore_errors=True)
         if pydir:
             shutil.rmtree(pydir, ignore_errors=True)
 
 
-def finish(mod, prop, tier, seed, recs, statuses, notes, t_start, replay, quiet):
+def finish(mod, prop, tier, seed, recs, statuses, notes, t_start, replay, quiet, share=1.0):
     known = {k["mech"]: k for k in load_known() if k.get("status") == "known" and k.get("property") == prop and k.get("mech")}
     by_v = {}
     cnt = {}
@@ -173,11 +179,12 @@ def finish(mod, prop, tier, seed, recs, statuses, notes, t_start, replay, quiet)
     inconc = []
     fl = mod.floors(tier) if hasattr(mod, "floors") else {}
     if not replay:
-        if decided < fl.get("min_decided", 1):
-            inconc.append("only %d decided cases (floor %d)" % (decided, fl.get("min_decided", 1)))
+        sc = max(0.05, min(1.0, share))
+        if decided < fl.get("min_decided", 1) * sc:
+            inconc.append("only %d decided cases (floor %d)" % (decided, fl.get("min_decided", 1) * sc))
         for k, v in (fl.get("counters") or {}).items():
-            if cnt.get(k, 0) < v:
-                inconc.append("monitor counter %s=%d below floor %d" % (k, cnt.get(k, 0), v))
+            if cnt.get(k, 0) < v * sc:
+                inconc.append("monitor counter %s=%d below floor %d" % (k, cnt.get(k, 0), v * sc))
         nd = by_v.get(common.OOD, 0) + by_v.get(common.INC, 0)
         if total and nd / total > fl.get("max_undecided_frac", 0.5):
             inconc.append("%d of %d cases undecided (%s)" % (nd, total, "; ".join("%s x%d" % kv for kv in sorted(why.items(), key=lambda kv: -kv[1])[:3])))
